@@ -444,7 +444,10 @@ func runC20(c *Ctx) {
 					c.Fail("C20: GET was answered with an error status", "%d %s", status, rec.Body.String())
 					return false
 				}
-				if op.kind == c20Put && !mayReject && !dup {
+				// "must be accepted" is demanded only of plainly well-formed requests:
+				// the exact form content type, or JSON declared as JSON (or undeclared)
+				plain := op.form || ctype == "application/json" || ctype == ""
+				if op.kind == c20Put && !mayReject && !dup && plain {
 					kind, _ := c20classify(op.text)
 					jsonOdd := !op.form && (op.text == "null" || op.text == "{}" || op.text == "1" || op.text == "true")
 					if kind == 1 && !jsonOdd {
